@@ -173,7 +173,7 @@ PROPS = {
         "streams": [{"name": "reload", "quick": 60, "thorough": 1500, "shards": 4},
                     {"name": "reload-blocked", "quick": 4, "thorough": 60, "shards": 2},
                     # reloads while the server is busy: a large previous configuration, a query stuck on a silent forwarder
-                    {"name": "reload-live", "quick": 2, "thorough": 8, "shards": 1, "fixed": True},
+                    {"name": "reload-live", "quick": 3, "thorough": 9, "shards": 1, "fixed": True},
                     {"name": "config-load", "quick": 600, "thorough": 20000}],
         "trivial_tags": [r":bad-op", r"reload/ok0/failed0"],
         "assumptions": [
